@@ -19,6 +19,86 @@ pub fn emit(kind: &str, n: usize) {
     print!("{out}");
 }
 
+#[cfg(unix)]
+extern "C" {
+    fn fork() -> i32;
+    fn pipe(fds: *mut i32) -> i32;
+    fn read(fd: i32, buf: *mut u8, n: usize) -> isize;
+    fn write(fd: i32, buf: *const u8, n: usize) -> isize;
+    fn close(fd: i32) -> i32;
+    fn waitpid(pid: i32, status: *mut i32, options: i32) -> i32;
+    fn _exit(code: i32) -> !;
+}
+
+/// `--rngfork <kind>` (run in a process of its own, single-threaded): draw a few values, fork(), then in the parent AND in
+/// the child discard 16 values and draw 48 more; print `P <value>` / `C <value>` lines. A forked child must not go on
+/// replaying its parent's random stream. (The 16 discarded values: rand's ThreadRng notices a fork when it generates its
+/// next output BLOCK — 64 words — so parent and child may legitimately share what was left of the current block; that is
+/// rand's documented fork protection, and whether the first draws coincide depends on how many words the draws before the
+/// fork happened to use. What the property can demand is that the streams DIVERGE.)
+#[cfg(unix)]
+pub fn fork_emit(kind: &str) {
+    let warm = draw(kind, 3);
+    // RNGFORK_DISCARD=0 shows rand's block sharing on the unchanged tree (used once to document it; the check uses 16)
+    let discard: usize = std::env::var("RNGFORK_DISCARD").ok().and_then(|s| s.parse().ok()).unwrap_or(16);
+    let mut fds = [0i32; 2];
+    unsafe {
+        if pipe(fds.as_mut_ptr()) != 0 {
+            println!("E pipe");
+            return;
+        }
+        let pid = fork();
+        if pid < 0 {
+            println!("E fork");
+            return;
+        }
+        if pid == 0 {
+            close(fds[0]);
+            let _ = draw(kind, discard);
+            let text = draw(kind, 48).join("\n");
+            let bytes = text.as_bytes();
+            let mut off = 0usize;
+            while off < bytes.len() {
+                let n = write(fds[1], bytes[off..].as_ptr(), bytes.len() - off);
+                if n <= 0 {
+                    break;
+                }
+                off += n as usize;
+            }
+            close(fds[1]);
+            _exit(0);
+        }
+        close(fds[1]);
+        let _ = draw(kind, discard);
+        let mine = draw(kind, 48);
+        let mut buf = Vec::new();
+        let mut chunk = [0u8; 4096];
+        loop {
+            let n = read(fds[0], chunk.as_mut_ptr(), chunk.len());
+            if n <= 0 {
+                break;
+            }
+            buf.extend_from_slice(&chunk[..n as usize]);
+        }
+        close(fds[0]);
+        let mut status = 0i32;
+        waitpid(pid, &mut status, 0);
+        for w in warm {
+            println!("W {w}");
+        }
+        for v in mine {
+            println!("P {v}");
+        }
+        for v in String::from_utf8_lossy(&buf).lines() {
+            println!("C {v}");
+        }
+    }
+}
+#[cfg(not(unix))]
+pub fn fork_emit(_kind: &str) {
+    println!("E unsupported");
+}
+
 fn draw(kind: &str, n: usize) -> Vec<String> {
     (0..n).map(|_| if kind == "s" { CsrfToken::new_random().secret().clone() } else { PkceCodeChallenge::new_random_sha256().1.secret().clone() }).collect()
 }
@@ -211,6 +291,25 @@ pub fn run(total: usize) -> Value {
         }
         analyse("32-processes", kind, &procs, false, &mut failures, &mut tests);
         evaluations += seq.len() + thr.len() + procs.len();
+        // a process that fork()s (a pre-forking server): parent and child go on drawing; their values must all differ
+        if let Ok(out) = Command::new(&exe).arg("--rngfork").arg(kind).output() {
+            let text = String::from_utf8_lossy(&out.stdout).to_string();
+            let pick = |tag: &str| -> Vec<String> { text.lines().filter_map(|l| l.strip_prefix(tag).map(|s| s.trim().to_string())).collect() };
+            let (parent, child) = (pick("P "), pick("C "));
+            if parent.len() == 48 && child.len() == 48 {
+                tests += 1;
+                evaluations += 96;
+                let ps: HashSet<&String> = parent.iter().collect();
+                let both: Vec<&String> = child.iter().filter(|c| ps.contains(c)).collect();
+                samples.push(json!({"mode": "fork", "kind": kind, "parent_first": parent[0], "child_first": child[0]}));
+                if !both.is_empty() {
+                    failures.push(json!({"signature": "C12:duplicate-values", "mode": "fork", "kind": kind,
+                        "detail": format!("{} of 48 values drawn in a forked child were also drawn in the parent after the fork, e.g. {}", both.len(), both[0])}));
+                }
+            } else {
+                samples.push(json!({"mode": "fork", "kind": kind, "note": format!("fork sampling unavailable: {}", text.lines().next().unwrap_or(""))}));
+            }
+        }
     }
     // every permitted byte count, not only the defaults: each byte POSITION of the token must vary over 64 draws
     // (a position that is constant, e.g. a tail left at zero by a block-wise fill, has probability 256^-63 under a
@@ -228,6 +327,22 @@ pub fn run(total: usize) -> Value {
             if vals.iter().any(|v| v.len() != n as usize) {
                 failures.push(json!({"signature": "C12:not-n-bytes", "mode": "all-lengths", "kind": kind, "detail": format!("n={n}")}));
                 continue;
+            }
+            // a value longer than a generator's word must not REPEAT earlier bytes: byte i equal to byte i-k in every draw
+            // (k = 1, 2, 4, 8, 16, 32) has probability 256^-64 under a sound generator
+            let mut periodic = None;
+            for k in [1usize, 2, 4, 8, 16, 32] {
+                if (n as usize) > k {
+                    if let Some(i) = (k..n as usize).find(|i| vals.iter().all(|v| v[*i] == v[*i - k])) {
+                        periodic = Some((i, k));
+                        break;
+                    }
+                }
+            }
+            if let Some((i, k)) = periodic {
+                failures.push(json!({"signature": "C12:bytes-repeat-within-a-value", "mode": "all-lengths", "kind": kind,
+                    "detail": format!("n={n}: byte {i} equals byte {} in 64 of 64 draws", i - k)}));
+                break;
             }
             if let Some(pos) = (0..n as usize).find(|p| vals.iter().all(|v| v[*p] == vals[0][*p])) {
                 failures.push(json!({"signature": "C12:constant-byte", "mode": "all-lengths", "kind": kind,
